@@ -8,7 +8,7 @@ from .lp import DecVar, RandVar, DecLinConstr, DecCvxConstr, DecPCvxConstr
 from .lp import DecRoConstr
 from .lp import PiecewiseConvex, PWConstr, ExpPWConstr, DecLMIConstr
 from .lp import Scen
-from .lp import Solution, def_sol
+from .lp import Solution, def_sol, check_curvature
 from .subroutines import event_dict
 import numpy as np
 import pandas as pd
@@ -249,6 +249,7 @@ class Model:
         if not isinstance(obj, (Real, PiecewiseConvex)):
             if obj.size > 1:
                 raise ValueError('Incorrect function dimension.')
+        check_curvature(obj, 1)
 
         self.obj = obj
         self.sign = 1
@@ -276,6 +277,7 @@ class Model:
         if not isinstance(obj, (Real, PiecewiseConvex)):
             if obj.size > 1:
                 raise ValueError('Incorrect function dimension.')
+        check_curvature(obj, -1)
 
         self.obj = obj
         self.sign = - 1
@@ -306,6 +308,7 @@ class Model:
         if not isinstance(obj, (Real, PiecewiseConvex)):
             if obj.size > 1:
                 raise ValueError('Incorrect function dimension.')
+        check_curvature(obj, 1)
 
         self.obj = obj
         self.obj_ambiguity = ambset
@@ -338,6 +341,7 @@ class Model:
         if not isinstance(obj, (Real, PiecewiseConvex)):
             if obj.size > 1:
                 raise ValueError('Incorrect function dimension.')
+        check_curvature(obj, -1)
 
         self.obj = obj
         self.obj_ambiguity = ambset
